@@ -2,6 +2,7 @@ package sim
 
 import (
 	"bytes"
+	"context"
 	"crypto/sha256"
 	"encoding/hex"
 	"fmt"
@@ -13,6 +14,8 @@ import (
 	"time"
 
 	abci "github.com/cometbft/cometbft/abci/types"
+	"github.com/cosmos/cosmos-sdk/types/query"
+	"github.com/cosmos/gogoproto/proto"
 
 	"github.com/circlefin/noble-cctp/x/cctp/keeper"
 	ct "github.com/circlefin/noble-cctp/x/cctp/types"
@@ -199,6 +202,150 @@ func c18BlockPartition(rc *RunCtx, seed int64, hid, nTx int, ks []int) {
 	}
 }
 
+// queryTranscript: the answers (or error texts) of a fixed battery of queries against e's committed state - every
+// list query without pagination, with count_total, with page sizes around and above the default 100, and the scalar
+// queries.
+func queryTranscript(e *Engine) []string {
+	var out []string
+	pages := []*query.PageRequest{nil, {CountTotal: true}, {Limit: 1000}, {Limit: 101, CountTotal: true}, {Limit: 3, CountTotal: true}, {Limit: 100}, {Offset: 1, Limit: 500, CountTotal: true}}
+	for _, q := range queryMethods {
+		var reqs []proto.Message
+		switch q.Kind {
+		case "none":
+			reqs = []proto.Message{nil}
+		case "page":
+			for _, p := range pages {
+				switch q.Name {
+				case "Attesters":
+					reqs = append(reqs, &ct.QueryAllAttestersRequest{Pagination: p})
+				case "PerMessageBurnLimits":
+					reqs = append(reqs, &ct.QueryAllPerMessageBurnLimitsRequest{Pagination: p})
+				case "TokenPairs":
+					reqs = append(reqs, &ct.QueryAllTokenPairsRequest{Pagination: p})
+				case "UsedNonces":
+					reqs = append(reqs, &ct.QueryAllUsedNoncesRequest{Pagination: p})
+				case "RemoteTokenMessengers":
+					reqs = append(reqs, &ct.QueryRemoteTokenMessengersRequest{Pagination: p})
+				}
+			}
+		default:
+			continue
+		}
+		for i, req := range reqs {
+			var bz []byte
+			if req != nil {
+				bz, _ = proto.Marshal(req)
+			}
+			r, err := e.C.App.Query(context.Background(), &abci.RequestQuery{Path: "/circle.cctp.v1.Query/" + q.Name, Data: bz})
+			h := sha256.New()
+			if err != nil {
+				fmt.Fprintf(h, "err:%v", err)
+			} else {
+				fmt.Fprintf(h, "%d|%s|", r.Code, r.Log)
+				h.Write(r.Value)
+			}
+			out = append(out, fmt.Sprintf("%s#%d:%x", q.Name, i, h.Sum(nil)[:6]))
+		}
+	}
+	return out
+}
+
+// c18QueryIndependence: what a query answers depends on the committed state only - not on how many other instances
+// are being queried at the same moment, nor on requests (valid, refused or malformed) served earlier in the process.
+func c18QueryIndependence(rc *RunCtx) {
+	mk := func() *Engine {
+		sub := &RunCtx{ID: "C18", Tier: "quick", Seed: rc.Seed, Cov: NewCov()}
+		sub.Rand = newRand(rc.Seed*31 + 77)
+		gs := GenGenesis(sub.Rand, GenOpts{Unpaused: true, WellFormed: true})
+		for i := 0; i < 130; i++ { // more used nonces than a default page
+			gs.UsedNoncesList = append(gs.UsedNoncesList, ct.Nonce{SourceDomain: 9, Nonce: uint64(1000 + i)})
+		}
+		f, allow := DefaultFunding(sub.Rand, false)
+		tcfg := chain.Config{Genesis: gs, Funded: f, Allowance: allow}
+		headerStyle(&tcfg, 1)
+		e, err := NewEngine(sub, tcfg)
+		if err != nil {
+			return nil
+		}
+		e.LightQueries = true
+		g := NewGen(e)
+		for i := 0; i < 40; i++ {
+			tx := g.Next()
+			g.Learn(tx, e.Exec(tx))
+		}
+		return e
+	}
+	ref0 := mk()
+	if ref0 == nil {
+		rc.Cov.Inconclusive("query independence: engine")
+		return
+	}
+	want := queryTranscript(ref0)
+	cmp := func(mode string, got []string) {
+		rc.Cov.Assert("C18.query-independence")
+		rc.Cov.Evaluations += len(got)
+		rc.Cov.Cell("C18_modes", "query-independence:"+mode)
+		for i := range want {
+			if i >= len(got) || got[i] != want[i] {
+				g := "<missing>"
+				if i < len(got) {
+					g = got[i]
+				}
+				rc.Report(Violation{Props: []string{"C18"}, Monitor: "query-independence", Sig: "C18:query-answer-depends-on-process-history:" + mode,
+					Detail: fmt.Sprintf("the same query on the same committed state answered differently (%s): first %s, now %s", mode, want[i], g)})
+				return
+			}
+		}
+	}
+	// (1) many instances queried at the same moment
+	n := 24
+	engs := make([]*Engine, n)
+	for i := range engs {
+		engs[i] = mk()
+	}
+	outs := make([][]string, n)
+	var wg sync.WaitGroup
+	start := make(chan struct{})
+	for i := range engs {
+		if engs[i] == nil {
+			continue
+		}
+		wg.Add(1)
+		go func(i int) {
+			defer wg.Done()
+			<-start
+			for rep := 0; rep < 3; rep++ {
+				outs[i] = queryTranscript(engs[i])
+			}
+		}(i)
+	}
+	close(start)
+	wg.Wait()
+	for i := range outs {
+		if outs[i] != nil {
+			cmp("concurrent-instances", outs[i])
+		}
+	}
+	// (2) after refused and malformed requests served by other instances of this process
+	noise := engs[0]
+	if noise != nil {
+		bad := []*query.PageRequest{{Key: []byte{1}, Offset: 1, CountTotal: true}, {Key: []byte{1}, Offset: 2, Limit: 1000}, {Key: []byte{0xff, 0xff}, Limit: 1000, CountTotal: true}, {Offset: 1 << 62, Limit: 1 << 62, CountTotal: true}, {Key: []byte("zz"), Offset: 9, Limit: 101}}
+		for k := 0; k < 40; k++ {
+			p := bad[k%len(bad)]
+			_ = noise.C.Query("UsedNonces", &ct.QueryAllUsedNoncesRequest{Pagination: p}, nil)
+			_ = noise.C.Query("Attesters", &ct.QueryAllAttestersRequest{Pagination: p}, nil)
+			_ = noise.C.Query("TokenPairs", &ct.QueryAllTokenPairsRequest{Pagination: p}, nil)
+			_ = noise.C.Query("RemoteTokenMessengers", &ct.QueryRemoteTokenMessengersRequest{Pagination: p}, nil)
+			_ = noise.C.Query("PerMessageBurnLimits", &ct.QueryAllPerMessageBurnLimitsRequest{Pagination: p}, nil)
+			_ = noise.C.QueryRaw("UsedNonces", []byte{0xff, 0xff, 0xff}, nil)
+		}
+	}
+	if fresh := mk(); fresh != nil {
+		cmp("after-refused-requests", queryTranscript(fresh))
+	}
+	cmp("same-instance-again", queryTranscript(ref0))
+}
+
 func c18Params(tier string) (H, nTx int) {
 	if tier == "thorough" {
 		return 16, 1200
@@ -242,6 +389,10 @@ func runC18(rc *RunCtx) {
 	}
 	// (b+) the same transactions packed 2, 7 and all-in-one to a block
 	c18BlockPartition(rc, rc.Seed, (hid+1)%H, nTx, []int{2, 7, 1 << 30, 1})
+	// (b++) query answers are independent of concurrent instances and of requests served earlier in the process
+	if rc.Shard%3 == 0 {
+		c18QueryIndependence(rc)
+	}
 	// (b'') the exported verifier and decoders called repeatedly and concurrently with the same arguments
 	c18RepeatCalls(rc)
 	// (c) concurrently with other instances on other goroutines
